@@ -59,3 +59,7 @@ add("C19", "exploration", "property-based testing of reply size/address against 
 add("C05", "exploration", "model-based property-based testing of handshake histories: every ClientConnected must be explained by the recorded history (provenance model of tokens, addresses, challenges)",
     "Several identities, addresses and tokens (good / foreign key / foreign protocol / wrong host / short-lived), lossy honest handshakes, the clock stepped around every expiry second, stolen and corrupted requests, cross-echoed challenges (other id, same id with other user data, other server), replayed and mutated responses; the oracle rejects any reported connection the history does not explain.",
     NETNOTE, "DESIGN.md 4/C05")
+
+add("C10", "exploration", "model-based property-based testing of multi-session handshake/disconnect/timeout/replay histories against a session-table model and the event stream",
+    "Up to 8 client objects over 4 identities and 5 addresses (several tokens per identity, several clients per address) race for 1-4 slots with lossy handshakes, disconnects from both sides, timeouts, genuine payloads and replays of any earlier datagram from any address; table invariants (unique ids, unique addresses, capacity), event alternation, identity of every connect, origin of every datagram-caused disconnect and routing of payloads are checked after every step.",
+    NETNOTE, "DESIGN.md 4/C10")
